@@ -6,12 +6,14 @@ Imports Model/Proto files only (core Lean), never proof files.
 -/
 import SyslModel.Core.Proto
 import SyslModel.Path.Proto
+import SyslModel.Closure.Proto
 
 open Lean (Json)
 open SyslModel
 
 def dispatch (op : String) (j : Json) : Option Json :=
   if op.startsWith "path." then Path.handle op j
+  else if op.startsWith "closure." then Closure.handle op j
   else none
 
 def handleLine (line : String) : String :=
